@@ -210,13 +210,23 @@ def funnelMonLine (line : String) : String :=
   if line.startsWith "skip" then "ok" else
   -- the harness marks two Source.Ack calls of one source being in flight at the same time
   if (line.splitOn "X[overlap]").length > 1 then "fail: C04 overlapping Source.Ack calls (acks to one source must be serialised)" else
+  -- graceful-stop runs (component funnelstop): `T` marks the source teardown
+  if (line.splitOn "X[late-ack]").length > 1 then
+    "fail: C06 ack attempted after the source connector was torn down (a written record is left unacknowledged)" else
+  if (line.splitOn "stop-hang").length > 1 || (line.splitOn "X[stop-error]").length > 1 then
+    "fail: C06 graceful stop did not complete" else
+  let stopped := (line.splitOn " ; T").length > 1 || (line.splitOn "## T").length > 1
+  let line := (line.replace " ; T" "").replace "## T ; " "## "
+  let line := line.replace "## T =>" "##  =>"
   match line.splitOn " ## " with
   | [cs, lg] =>
     match parseCase cs, parseLog lg with
     | some c, some log =>
       match c.tree with
       | some t =>
-        match Mon.run t c.scripts c.batches log with
+        let endOk := (lg.splitOn "=> ok").length > 1
+        let extra := if stopped && endOk then Mon.halfHandled t c.scripts c.batches log else []
+        match Mon.run t c.scripts c.batches log ++ extra with
         | [] => "ok"
         | vs => "fail: " ++ "; ".intercalate vs
       | none => "bad-op"
